@@ -401,6 +401,8 @@ class XlaWalker(Walker):
                     return -a[0] if type(a[0]) is int else dt(-a[0])
                 if t.op == "u+":
                     return a[0] if type(a[0]) is int else dt(a[0])
+                if t.op == "u!":
+                    return not bool(a[0])
                 if t.op.startswith("std::numeric_limits<"):
                     member = t.op.split("::")[-1]
                     return dt({"max": fi.max, "min": fi.smallest_normal, "infinity": numpy.inf, "epsilon": fi.eps, "quiet_NaN": numpy.nan, "denorm_min": fi.smallest_subnormal, "lowest": -fi.max}[member])
@@ -564,6 +566,11 @@ def run_target(rec, fa, tname, rnd, ngen, with_format):
                     text = g.tostring(target)
             except NotImplementedError:
                 rec.count(f"refused:{tname}:print")
+                continue
+            except AssertionError:
+                # the printer's own consistency assertions are how it refuses a graph it cannot name (e.g. a constant whose like-expression contains an
+                # equal-valued constant: both want the reference constant_<value>) - "graphs the target accepts" excludes those; nothing was emitted
+                rec.count(f"refused:{tname}:print-assertion")
                 continue
             except Exception as e:
                 rec.violation(f"{tname}:emit-raises:{type(e).__name__}", dict(program=label, graph=describe(g.operands[-1]), exc=f"{type(e).__name__}: {e}"[:300]))
